@@ -52,7 +52,15 @@ pub fn prefix_sei_removed_hdr10plus_nalu(
     nal: &NALUnit,
 ) -> Result<(bool, Option<Vec<u8>>)> {
     let (st2094_40_msg, payload) = if nal.nal_type == NAL_SEI_PREFIX {
-        let sei_payload = clear_start_code_emulation_prevention_3_byte(&chunk[nal.start..nal.end]);
+        let mut sei_payload =
+            clear_start_code_emulation_prevention_3_byte(&chunk[nal.start..nal.end]);
+
+        // Trailing zero bytes before the next start code are not part of the SEI RBSP,
+        // which always ends with the non-zero rbsp_trailing_bits byte
+        while sei_payload.last() == Some(&0) {
+            sei_payload.pop();
+        }
+
         let msg = st2094_40_sei_msg(&sei_payload)?;
 
         (msg, Some(sei_payload))
